@@ -152,6 +152,52 @@ def integrity_race_sweep(nq, kmax, tag):
     return fn
 
 
+def lockbusy_sweep(kinds, kmax, tag, nthird=(3, 7)):
+    """programs_fn: actor call x third-party call (gen.gen_lockbusy); the third party (process 1) is cut before each of its hooks"""
+    def fn(tier, seed):
+        rng = random.Random("%s/%d" % (tag, seed))
+        km = kmax[0] if tier == "quick" else kmax[1]
+        thirds = list(gen.LOCKBUSY_THIRD)
+        rng.shuffle(thirds)
+        thirds = thirds[:nthird[0] if tier == "quick" else nthird[1]]
+        out = []
+        for kind in kinds:
+            for actor in gen.LOCKBUSY_ACTORS[kind]:
+                for third in thirds:
+                    base = gen.gen_lockbusy(rng, actor, third)
+                    for k in range(1, km + 1):
+                        p = json.loads(json.dumps(base))
+                        st = dict(p.get("strat", {}))
+                        st.update({"freeze": [1, k, 1, 1], "p_spurious": 0.0, "seed": rng.randrange(1 << 30)})
+                        p["strat"] = st
+                        p["execs"] = 1
+                        out.append(p)
+        return out
+    return fn
+
+
+def casrace_sweep(tag):
+    """programs_fn: waiter kind x event (gen.casrace_combos); the waiter is cut exactly before its n-th compare_exchange on its own
+    signal (n = 1, 2) or before its n-th Acquire/Relaxed load of it after the spin phase, while the event runs to the end"""
+    def fn(tier, seed):
+        rng = random.Random("%s/%d" % (tag, seed))
+        out = []
+        reps = 1 if tier == "quick" else 6
+        for combo in gen.casrace_combos():
+            for _ in range(reps):
+                base = gen.gen_casrace(rng, combo)
+                for kind, ns in ((3, (1, 2)), (14, (1,))):          # a8_cas; park
+                    for n in ns:
+                        p = json.loads(json.dumps(base))
+                        st = dict(p.get("strat", {}))
+                        st.update({"freeze": [0, n, 0, 1], "freeze_kind": kind, "seed": rng.randrange(1 << 30)})
+                        p["strat"] = st
+                        p["execs"] = 1
+                        out.append(p)
+        return out
+    return fn
+
+
 def lockhold_sweep(nq, kmax, tag):
     """programs_fn: timed call x third-party call combinations (gen.lockhold_combos); the third party (process 1) is cut before each of
     its hooks of the race phase, in particular while it holds the channel lock, exactly when the timed call's deadline expires"""
@@ -217,7 +263,8 @@ PLANS = {
                       R("chain", (150, 3000), (2, 6), None, True), R("close", (200, 3000), (3, 6), None, True),
                       R("pairsweep", (0, 0), (1, 1), None, True, programs_fn=freeze_sweep("pair", (30, 800), (40, 60), "pairsweep", victims=(0, 1), from_phase=3, solo=1)),
                       R("discrace", (0, 0), (1, 1), None, True, programs_fn=discrace_sweep(48, (40, 60), "discrace03")),
-                      R("seqhidden", (0, 0), (1, 1), None, True, programs_fn=hidden_programs)]),
+                      R("seqhidden", (0, 0), (1, 1), None, True, programs_fn=hidden_programs),
+                      R("lockbusy", (0, 0), (1, 1), None, True, programs_fn=lockbusy_sweep(("block", "try", "drain"), (10, 14), "lockbusy03", nthird=(2, 7)))]),
     "C05": dict(mc=MC("timed", "async", thorough=["t_async"], bounded=["t_timed"]) + MCA("2p"), spec_l1l0=True, runs=[R("general", (250, 4000), (3, 6), "C05", True), R("timed", (200, 3000), (3, 6), "C05", True),
                       R("async", (200, 3000), (3, 6), "C05", True), R("chain", (100, 2000), (2, 6), "C05", True),
                       R("discrace", (0, 0), (1, 1), "C05", True, programs_fn=discrace_sweep(16, (40, 60), "discrace05"))]),
@@ -235,27 +282,33 @@ PLANS = {
                       R("discrace", (0, 0), (1, 1), None, False, programs_fn=discrace_sweep(12, (40, 60), "discrace07"), rawmon=[("HBMonitor", "HBMonitor.cfg")])],
                 assume=["happens-before is computed from the orderings actually passed to the atomics on sequentially consistent interleavings; stale relaxed reads of weaker-than-SC executions are not enumerated"]),
     "C08": dict(mc=MC("sync", thorough=["t_sync"]), spec_l1l0=True, runs=[R("capacity", (300, 5000), (3, 6), "C08", True), R("general", (150, 2000), (3, 5), "C08", True),
-                                                           R("chain_z", (200, 3000), (2, 4), "C08", True), R("chain_s", (100, 2000), (2, 4), "C08", True)]),
+                                                           R("chain_z", (200, 3000), (2, 4), "C08", True), R("chain_s", (100, 2000), (2, 4), "C08", True),
+                                                           R("casrace", (0, 0), (1, 1), "C08", True, own_all=True, programs_fn=casrace_sweep("casrace08"))]),
     "C10": dict(mc=MC("sync", "timed", "closeclone", thorough=["t_sync"], bounded=["t_timed"]), spec_l1l0=True, spec_l2l1=True, runs=[R("close", (300, 5000), (3, 6), "C10", True), R("general", (150, 2000), (3, 5), "C10", True),
-                      R("discrace", (0, 0), (1, 1), "C10", True, own_all=True, programs_fn=discrace_sweep(48, (40, 60), "discrace10"))]),
+                      R("discrace", (0, 0), (1, 1), "C10", True, own_all=True, programs_fn=discrace_sweep(48, (40, 60), "discrace10")),
+                      R("casrace", (0, 0), (1, 1), "C10", True, own_all=True, programs_fn=casrace_sweep("casrace10"))]),
     "C11": dict(mc=MC("handles", "closeclone", bounded=["t_handles"]), spec_l1l0=True, runs=[R("hseq", (0, 0), (1, 1), "C11", True, programs_fn=handle_programs, own_all=True),
                                         R("disconnect", (300, 5000), (3, 6), "C11", True), R("general", (150, 2000), (3, 5), "C11", True),
-                                        R("discrace", (0, 0), (1, 1), "C11", True, own_all=True, programs_fn=discrace_sweep(48, (40, 60), "discrace11"))]),
+                                        R("discrace", (0, 0), (1, 1), "C11", True, own_all=True, programs_fn=discrace_sweep(48, (40, 60), "discrace11")),
+                      R("casrace", (0, 0), (1, 1), "C11", True, own_all=True, programs_fn=casrace_sweep("casrace11"))]),
     "C12": dict(mc=MC("handles", "closeclone", bounded=["t_handles"]) + MCA("1p"), spec_l1l0=True, runs=[R("hseq", (0, 0), (1, 1), "C12", True, programs_fn=handle_programs, own_all=True),
                                         R("handles", (300, 5000), (3, 6), "C12", True)]),
     "C13": dict(mc=MC("timed", bounded=["t_timed"]), spec_l1l0=True, runs=[R("timed", (400, 6000), (4, 8), "C13", True), R("chain", (150, 3000), (2, 6), "C13", True),
-                                                           R("lockhold", (0, 0), (1, 1), "C13", True, own_all=True, programs_fn=lockhold_sweep(24, (12, 16), "lockhold13"))]),
+                                                           R("lockhold", (0, 0), (1, 1), "C13", True, own_all=True, programs_fn=lockhold_sweep(24, (12, 16), "lockhold13")),
+                                                           R("casrace", (0, 0), (1, 1), "C13", True, own_all=True, programs_fn=casrace_sweep("casrace13"))]),
     "C04": dict(mc=MC("mixed"), runs=[R("integrity_" + pl, (n, n * 12), (2, 4), "C04", True, own_all=True)
                                       for pl, n in (("u8", 260), ("u16", 120), ("w1", 60), ("h4", 60), ("b3", 60), ("p5", 60), ("z0", 40), ("z64", 40))]
-                + [R("integrity_race", (0, 0), (1, 1), "C04", True, own_all=True, programs_fn=integrity_race_sweep((30, 600), (30, 45), "integrace"))],
+                + [R("integrity_race", (0, 0), (1, 1), "C04", True, own_all=True, programs_fn=integrity_race_sweep((42, 600), (30, 45), "integrace"))],
                 assume=["bit patterns: u8 exhaustive (every value on rotating paths), u16 boundary + random, larger classes checksum-tagged ids; the TLA+ side carries identities, bytes are compared by the harness projection id <-> bytes"]),
     "C06": dict(mc=MC("sync", "async", "live_sync", "live_async", "live_timed", thorough=["t_sync", "t_async"]), spec_replay=True, runs=[R("progress", (500, 8000), (3, 6), "ALL", True, own_all=True), R("chain", (100, 2000), (2, 4), None, True, own_all=True),
-                                                                R("waiters", (250, 5000), (2, 4), None, True, own_all=True)]),
+                                                                R("waiters", (250, 5000), (2, 4), None, True, own_all=True),
+                                                                R("casrace", (0, 0), (1, 1), None, True, own_all=True, programs_fn=casrace_sweep("casrace06"))]),
     "C09": dict(mc=MC("mixed", bounded=["t_mixed"]), spec_l1l0=True, runs=[R("mixed", (400, 8000), (3, 6), "C09", True, own_all=True),
                                       R("hseq", (0, 0), (1, 1), "C09", True, programs_fn=handle_programs, own_all=True)]),
     "C14": dict(mc=MC("try"), runs=[R("try", (300, 6000), (3, 6), None, True, rawmon=[("NonBlocking", "NonBlocking.cfg")]),
                                     R("tryfreeze", (300, 6000), (2, 4), None, True, rawmon=[("NonBlocking", "NonBlocking.cfg")]),
-                                    R("trystate", (500, 8000), (1, 2), None, True, own_all=True, rawmon=[("NonBlocking", "NonBlocking.cfg")])]),
+                                    R("trystate", (500, 8000), (1, 2), None, True, own_all=True, rawmon=[("NonBlocking", "NonBlocking.cfg")]),
+                                    R("lockbusy", (0, 0), (1, 1), None, True, own_all=True, programs_fn=lockbusy_sweep(("try",), (10, 14), "lockbusy14"))]),
     "C15": dict(mc=MC("async", thorough=["t_async"]), runs=[R("fdrop", (400, 8000), (4, 8), "C15", True), R("chain", (200, 3000), (2, 6), "C15", True, own_all=True),
                                       R("fdropfreeze", (0, 0), (1, 1), "C15", True, programs_fn=freeze_sweep("fdrop", (10, 150), (30, 45), "fdropfreeze15"),
                                         rawmon=[("HBMonitor", "HBMonitor.cfg")])]),
@@ -271,7 +324,8 @@ PLANS = {
                 runs=[R("seq", (0, 0), (1, 1), None, True, programs_fn=seq_programs)],
                 assume=["single-thread call sequences: exhaustive up to length 2 (quick) / 3 (thorough) over a 58-call alphabet per capacity, random longer ones"]),
     "C19": dict(mc=MC("mixed", bounded=["t_mixed"]), runs=[R("drain", (300, 5000), (4, 8), None, True), R("chain_s", (150, 3000), (2, 6), None, True),
-                                                           R("chain_drain", (250, 4000), (2, 4), None, True, own_all=True)]),
+                                                           R("chain_drain", (250, 4000), (2, 4), None, True, own_all=True),
+                                                           R("lockbusy", (0, 0), (1, 1), None, True, own_all=True, programs_fn=lockbusy_sweep(("drain",), (10, 14), "lockbusy19"))]),
 }
 
 
